@@ -240,6 +240,7 @@ func init() {
 		wireOrder(wc, r, "C02", "dec")
 		wireFieldOrderEmission(wc, r, "C02", map[string]bool{"dec": true})
 		sizeSumHonoursRepeat(w, r, "C02")
+		kindByRuleNotByText(w, r, "C02")
 		r.refile("C05/key-as-written", "C02/key-as-written", func(sr *Report) { wireKeyAsWritten(w, wc, sr, "C05") }, nil)
 		wireModelFrame(w, r, "C02", frameWire, nil, map[string]bool{"Field": true, "MatchPair": true}, "a generator rewrites the part of the shared model the decoders are derived from: the decoders of the targets generated after it no longer mirror the declared layout")
 		wireAssumptions(r)
